@@ -918,7 +918,23 @@ impl Session {
     }
 }
 
+/// Crash isolation (set by ./check after a run died from a signal): every worker records the case it is
+/// about to check, so that the driver can replay the candidates one by one in fresh processes.
+fn isolate_dir() -> Option<&'static String> {
+    static D: std::sync::OnceLock<Option<String>> = std::sync::OnceLock::new();
+    D.get_or_init(|| std::env::var("KVH_ISOLATE").ok()).as_ref()
+}
+
+fn record_in_flight<P: Part>(p: &P, case: &P::Case) {
+    if let Some(dir) = isolate_dir() {
+        let tid = format!("{:?}", std::thread::current().id()).replace(['(', ')'], "_");
+        let body = json!({"property": "", "part": p.name(), "case": serde_json::to_value(case).unwrap_or(Value::Null), "failures": [], "note": "in flight when the process died"});
+        let _ = std::fs::write(format!("{dir}/inflight-{tid}.json"), body.to_string());
+    }
+}
+
 fn guarded_check<P: Part>(p: &P, case: &P::Case) -> Outcome {
+    record_in_flight(p, case);
     match catch(|| p.check(case)) {
         Ok(o) => o,
         Err(site) => {
